@@ -141,7 +141,11 @@ func stacklessWriteBrotli(ctx any) {
 	stacklessWriteBrotliOnce.Do(func() {
 		stacklessWriteBrotliFunc = stackless.NewFunc(nonblockingWriteBrotli)
 	})
-	stacklessWriteBrotliFunc(ctx)
+	if !stacklessWriteBrotliFunc(ctx) {
+		// The stackless worker queue is full: compress on the caller's goroutine
+		// instead of silently dropping the data.
+		nonblockingWriteBrotli(ctx)
+	}
 }
 
 func nonblockingWriteBrotli(ctxv any) {
